@@ -262,6 +262,7 @@ def targets(ctx):
 
     return [
         Target("grammar_schema_values", grammar_ev, strategy=gstrat, quick=3, thorough=40, time_quick=60, time_thorough=900, pin_budget=10, pin_sigs=1),
+        __import__("vf.props._prog", fromlist=["target"]).target("C02", c),
         Target("corpus_values_reencoded", ev, poison=_poison_fn, strategy=strat(), quick=450, thorough=6000, time_quick=70),
         Target("dense_reencodings", ev, poison=_poison_fn, strategy=dense(), quick=350, thorough=5000, time_quick=70),
         _seq.target("C02"),
